@@ -1,6 +1,6 @@
 (* C05 property theorems (model: C05/Dec.v over the shared ABI spec C06/Abi.v). *)
 From Coq Require Import ZArith List Bool Lia.
-From Verif Require Import C06.Abi C06.Roundtrip C05.Dec C05.DecProofs.
+From Verif Require Import C06.Abi C06.Roundtrip C05.Dec C05.DecProofs C05.ReadsInside.
 Import ListNotations.
 Open Scope Z_scope.
 
@@ -41,6 +41,22 @@ Theorem payload_sound : forall t payload v,
   wf_ty t = true -> bytes_ok payload -> accept_payload t payload = Some v -> in_type t v = true.
 Proof. intros t p v Hwf Hb H. exact (dec_sound_g wadd t p Hwf Hb 0 v H). Qed.
 
+(* in-memory payloads (abi_decode; returndata likewise with hi = min(returndatasize, size_bound)):
+   if the payload is accepted then every read that determines acceptance or the value lies inside the
+   payload -- appending ANY stale bytes after it changes nothing -- and the value is in type *)
+Theorem dec_reads_inside : forall t payload junk v,
+  wf_ty t = true -> bytes_ok payload -> scalar_like t = false ->
+  accept_mem t payload = Some v ->
+  inb t (payload ++ junk) 0 (zlen payload) = true /\ dec_at t (payload ++ junk) 0 = Some v /\ in_type t v = true.
+Proof.
+  intros t p junk v Hwf Hb Hs. unfold accept_mem.
+  destruct ((static_size t <=? zlen p) && (zlen p <=? size_bound t)); [|discriminate].
+  destruct (inb t p 0 (zlen p)) eqn:Hi; [|discriminate]. intro Hd.
+  destruct (ReadsInside.dec_reads_inside t p junk Hwf Hb Hs Hi) as [H1 H2].
+  split; [exact H1|]. split; [now rewrite H2|]. exact (dec_sound_g Z.add t p Hwf Hb 0 v Hd).
+Qed.
+Print Assumptions dec_reads_inside.
+
 (* non-vacuity *)
 Definition TA := TTuple [TDArr (TBytes 3) 2; TInt 8].
 Definition VA := VList [VList [VBytes [1;2;3]; VBytes []]; VInt (-128)].
@@ -50,5 +66,10 @@ Example c05_nonvacuous :
   accept_call (TTuple [TInt 8]) ([1;2;3;4] ++ word 128) = None /\
   (* non-canonical offset is followed *)
   accept_call (TTuple [TBytes 3]) ([1;2;3;4] ++ word 64 ++ word 7 ++ word 1 ++ [9] ++ zeros 31) = Some (VList [VBytes [9]]) /\
-  needs_clamp (TSArr (TTuple [TUInt 256; TBytesM 32; TFlag 256]) 2) = false.
+  needs_clamp (TSArr (TTuple [TUInt 256; TBytesM 32; TFlag 256]) 2) = false /\
+  (* memory payload: canonical accepted; an offset that points past the payload is rejected even though
+     the zero-extended follow decoder would accept it as an empty byte string *)
+  accept_mem (TTuple [TBytes 3]) (word 32 ++ word 1 ++ [9] ++ zeros 31) = Some (VList [VBytes [9]]) /\
+  accept_mem (TTuple [TBytes 3]) (word 96 ++ word 1 ++ [9] ++ zeros 31) = None /\
+  accept_payload (TTuple [TBytes 3]) (word 96 ++ word 1 ++ [9] ++ zeros 31) = Some (VList [VBytes []]).
 Proof. vm_compute. repeat split; reflexivity. Qed.
